@@ -17,7 +17,10 @@ RULE = (
     "Small Boolean problems (<= 3 fluents with 0-1 parameters over 2 objects, <= 3 actions; conditional and forall effects, "
     "negative / disjunctive / quantified conditions, at most one effect per fluent per action) with a generated non-empty "
     "collection of 1-4 possible initial states (duplicates included), given explicitly as UPStates or, in a second mode, as a "
-    "ContingentProblem whose oneof / or / unknown constraints the harness enumerates itself.  Reference = breadth-first search "
+    "ContingentProblem whose oneof / or / unknown constraints the harness enumerates itself.  In 60 % of the cases with "
+    "disagreeing states half of the effects are conditioned on a literal over a ground fluent the states disagree on, and 30 % "
+    "carry a 'lost and regained by cases' shape (a literal known initially, switched off and on again under such conditions, and "
+    "required by the goal).  Reference = breadth-first search "
     "over beliefs (sets of states): an action is applicable iff applicable in every state, goals hold iff they hold in every "
     "state.  Soundness: every valid plan of the compiled problem up to length 4 (reference simulator, node cap) maps through "
     "plan_back_conversion to a plan the belief semantics executes from ALL possible initial states reaching the goals in each.  "
@@ -52,10 +55,58 @@ def cases(draw):
         a["eff"] = effs
     if not p["goals"]:
         p["goals"] = [g.bool_expr({"params": [], "vars": []}, 1)]
-    nstates = g.pick([1, 2, 2, 3, 3, 4])
+    nstates = g.pick([1, 2, 2, 2, 3, 3, 4])
     states = [[g.b() for _ in range(8)] for _ in range(nstates)]
     if nstates >= 2 and g.b(0.25):
         states.append(list(states[0]))  # a duplicate
+    keys = ground(p)
+    hidden = [k for i, k in enumerate(keys) if len({bool(b[i % len(b)]) for b in states}) > 1]
+    if hidden and g.b(0.6):
+        # effects conditioned on what is NOT known: literals over ground fluents on which the possible initial
+        # states disagree, so that knowledge is lost and has to be re-established by cases
+        for a in p["actions"]:
+            for e in a["eff"]:
+                if g.b(0.5):
+                    k = g.pick(hidden)
+                    atom = ["fl", k[0]] + [["obj", o] for o in k[1]]
+                    e["cond"] = ["not", atom] if g.b(0.5) else atom
+        if g.b(0.5):
+            # goals over what the actions write (conjunction of literals: no disjunction involved)
+            written = []
+            for a in p["actions"]:
+                for e in a["eff"]:
+                    fl = e["fl"]
+                    if all(x[0] == "obj" for x in fl[2:]) and fl not in written:
+                        written.append(fl)
+            if written:
+                p["goals"] = [w if g.b(0.7) else ["not", w] for w in written[: g.i(1, 3)]]
+    if hidden and len(keys) >= 2 and len(keys) <= 8 and g.b(0.3):
+        # "lost and regained by cases": a literal L known initially, switched off under a condition on which the
+        # possible states disagree and switched on again under such a condition, and needed at the end -- K L is
+        # then only re-derivable by merging over the states (the K_S0 translation's merge actions)
+        atom = lambda k: ["fl", k[0]] + [["obj", o] for o in k[1]]
+        u = g.pick(hidden)
+        others = [k for k in keys if k != u]
+        L = g.pick(others)
+        val0 = g.b(0.7)
+        for b_ in states:
+            b_[keys.index(L)] = val0
+        lit = lambda k, pos: atom(k) if pos else ["not", atom(k)]
+        acts = p["actions"]
+        while len(acts) < 2:
+            acts.append({"name": f"extra{len(acts)}", "params": [], "pre": [], "eff": []})
+        lose, regain = (acts[0], acts[1]) if g.b(0.7) else (acts[1], acts[0])
+        cu = g.b()
+        lose["eff"] = [e for e in lose["eff"] if e["fl"][1] != L[0]] + [{"kind": "assign", "fl": atom(L), "val": ["b", not val0], "cond": lit(u, cu), "forall": []}]
+        regain["eff"] = [e for e in regain["eff"] if e["fl"][1] != L[0]] + [{"kind": "assign", "fl": atom(L), "val": ["b", val0], "cond": lit(u, cu if g.b(0.7) else not cu), "forall": []}]
+        goals = [lit(L, val0)]
+        rest = [k for k in others if k != L and k[0] != L[0] and k[0] != u[0]]
+        if rest:
+            G = g.pick(rest)
+            gv = not bool(states[0][keys.index(G)])
+            lose["eff"] = [e for e in lose["eff"] if e["fl"][1] != G[0]] + [{"kind": "assign", "fl": atom(G), "val": ["b", gv], "cond": None, "forall": []}]
+            goals.append(lit(G, gv))
+        p["goals"] = goals
     mode = g.pick(["states", "states", "contingent"])
     return {"problem": p, "states": states, "mode": mode}
 
@@ -273,7 +324,7 @@ def shard(ctx):
         ctx.evaluations -= 1
         check(ctx, case)
 
-    ctx.run_hypothesis(cases(), oracle, ctx.scale(1200, 12000))
+    ctx.run_hypothesis(cases(), oracle, ctx.scale(5000, 40000))
 
 
 def replay(ctx, case):
